@@ -76,7 +76,12 @@ def encode(v, gin=None, session=None):
   if t in (set, frozenset):
     return {'set': sorted((encode(x, gin, session) for x in v), key=canon)}
   if t is Opaque:
-    return {'o': v.oid}
+    oid = v.oid
+    # bound opaque values are deep-copied on delivery (ids below 300): the copy is the same value;
+    # opaque *constants* (ids 300..399) must be delivered by identity, so their copies stay visible
+    if oid >= 100000 and (oid % 100000) < 300:
+      oid %= 100000
+    return {'o': oid}
   if t is ProbeResult:
     return {'res': [v.sel, v.n]}
   if cfgmod is not None:
